@@ -122,3 +122,12 @@ def sql_value_triggers(tname, like_pos, payload):
     if like_pos and "'" in payload:
         keys.append("sql-like-pattern-quote-injection")
     return keys
+
+
+def sql_structure_triggers(t, dialect):
+    """Known structural defects of the raw SQL dialects (C09/C01), by mechanism."""
+    keys = []
+    for n in T.walk(t):
+        if n[0] == "call" and n[1] in ("floor", "ceiling") and dialect == "standard":
+            keys.append("sql-standard-floor-ceiling-template")
+    return keys
